@@ -68,6 +68,7 @@ type Op struct {
 	Slot      int
 	Doc       int
 	Faults    [nFuncs]uint64
+	Panics    [nFuncs]uint64 // user functions that panic (fault kind "callback panics")
 	Inject    int
 	Arg       int
 	RefFn     *ParsedFn
@@ -274,10 +275,15 @@ func soloParse(p *PathSpec, c CfgSpec) *ParsedFn {
 }
 
 func soloEval(pf *ParsedFn, doc interface{}, faults [nFuncs]uint64, rec *Recorder) (string, string) {
+	return soloEvalP(pf, doc, faults, [nFuncs]uint64{}, rec)
+}
+
+func soloEvalP(pf *ParsedFn, doc interface{}, faults, panics [nFuncs]uint64, rec *Recorder) (string, string) {
 	if pf.Fn == nil {
 		return "PARSE:" + pf.Out, ""
 	}
 	rec.reset(faults)
+	rec.Panics = panics
 	s := recSlot()
 	old := curRec[s]
 	curRec[s] = rec
@@ -361,6 +367,7 @@ func (w *World) execOp(t *Task, idx int) {
 	t.nops++
 	curRec[t.id] = &t.rec
 	t.rec.reset(o.Faults)
+	t.rec.Panics = o.Panics
 	evalOn := func(pf *ParsedFn, judge bool) {
 		d := w.docOf(t, o.Doc)
 		var before interface{}
@@ -388,7 +395,7 @@ func (w *World) execOp(t *Task, idx int) {
 		}
 		if w.refInline && o.RefFn != nil {
 			simrt.SetMode(simrt.ModeSolo)
-			exp, explog := soloEval(o.RefFn, before, o.Faults, &t.refRec)
+			exp, explog := soloEvalP(o.RefFn, before, o.Faults, o.Panics, &t.refRec)
 			simrt.SetMode(simrt.ModeSim)
 			w.judge(t, o, exp, explog)
 		} else if o.HasExpect {
@@ -460,7 +467,7 @@ func (w *World) execOp(t *Task, idx int) {
 		if w.judgeOutcome && simrt.Aborted() == 0 {
 			if w.refInline && o.RefFn != nil {
 				simrt.SetMode(simrt.ModeSolo)
-				exp, explog := soloEval(o.RefFn, before, o.Faults, &t.refRec)
+				exp, explog := soloEvalP(o.RefFn, before, o.Faults, o.Panics, &t.refRec)
 				simrt.SetMode(simrt.ModeSim)
 				if o.RefFn.Fn == nil {
 					exp = o.RefFn.Out
@@ -516,6 +523,9 @@ func (w *World) execOp(t *Task, idx int) {
 	}
 	if t.rec.Nested > 0 {
 		t.fault("callback-reentered-library")
+	}
+	if t.rec.Panicked > 0 {
+		t.fault("callback-panicked")
 	}
 	if w.checkOld {
 		w.checkOldResults(t, o)
@@ -699,5 +709,20 @@ func drawFaults(usable uint32) (f [nFuncs]uint64) {
 			}
 		}
 	}
+	return
+}
+
+// drawPanics makes (rarely) one call of one user function panic.
+func drawPanics(usable uint32) (p [nFuncs]uint64) {
+	if usable == 0 || !chance(12) {
+		return
+	}
+	var fs []int
+	for k := 0; k < nFuncs; k++ {
+		if usable&(1<<uint(k)) != 0 {
+			fs = append(fs, k)
+		}
+	}
+	p[fs[rn(len(fs))]] = 1 << uint(rn(5))
 	return
 }
